@@ -4,8 +4,10 @@ package props
 
 import (
 	"fmt"
+	"math/big"
 	"testing"
 
+	tx "github.com/MinterTeam/minter-go-node/coreV2/transaction"
 	"github.com/MinterTeam/minter-go-node/coreV2/types"
 	abci "github.com/tendermint/tendermint/abci/types"
 	"pgregory.net/rapid"
@@ -27,6 +29,12 @@ func TestC04(t *testing.T) {
 		h := newHistory(t, sim.DefaultOpts(), replayProfile(), sim.BlockOpts{MaxTxs: 8})
 		accepted := map[string]bool{}
 		replays, outOfOrder := 0, 0
+		// reference nonce per sender, kept by the harness: genesis value, +1 per accepted transaction
+		model := map[types.Address]uint64{}
+		for _, a := range h.G.V.Exp.Accounts {
+			model[a.Address] = a.Nonce
+		}
+		drained, burnerReplays := 0, 0
 		type pre struct {
 			decoded bool
 			sender  types.Address
@@ -45,7 +53,15 @@ func TestC04(t *testing.T) {
 			if err != nil {
 				return
 			}
-			cur = pre{decoded: true, sender: s, nonce: h.G.Nonce(s), txNonce: d.Nonce, chain: d.ChainID}
+			if d.SignatureType == tx.SigTypeSingle {
+				if ref, _, ok := sim.RefSender(m.Raw); ok {
+					s = ref // the real signer, recovered independently of coreV2/transaction
+				}
+			}
+			if got := h.G.Nonce(s); got != model[s] {
+				violation(t, "nonce-differs-from-model", h.R, "the node reports nonce %d for %s; %d transactions of that account were accepted since genesis (genesis nonce included)", got, s.String(), model[s])
+			}
+			cur = pre{decoded: true, sender: s, nonce: model[s], txNonce: d.Nonce, chain: d.ChainID}
 			if accepted[string(m.Raw)] {
 				replays++
 			}
@@ -71,9 +87,98 @@ func TestC04(t *testing.T) {
 					violation(t, "nonce-not-advanced", h.R, "after an accepted transaction with nonce %d the sender's nonce is %d", cur.txNonce, got)
 				}
 				accepted[string(m.Raw)] = true
+				model[cur.sender] = cur.txNonce
 			} else if cur.decoded {
 				if got := h.G.Nonce(cur.sender); got != cur.nonce {
 					violation(t, "rejected-changed-nonce", h.R, "a rejected transaction (code %d) moved the nonce of %s from %d to %d", r.Code, cur.sender.String(), cur.nonce, got)
+				}
+			}
+		}
+		// "burner" account life cycle woven into the history: a fresh key is funded, sends a
+		// transaction, then sends away everything it has left (balance - fee, so that every balance
+		// is exactly zero), is funded again some blocks later, and its old byte strings are delivered again
+		type burner struct {
+			u      *sim.User
+			stage  int
+			raws   [][]byte
+			waitTo int
+		}
+		var burners []*burner
+		deliver := func(kind string, u *sim.User, to types.Address, value *big.Int) (abci.ResponseDeliverTx, []byte) {
+			raw := sim.SignedSend(h.W, u, model[u.Addr]+1, to, 0, value, 0, 1)
+			m := &sim.TxMeta{Raw: raw, Type: tx.TypeSend, Kind: kind, Sender: u.Addr, Payer: u.Addr, GasPrice: 1, Data: tx.SendData{Coin: 0, To: to, Value: value}}
+			n0 := len(h.N.Trace)
+			if !h.R.Deliver(m) {
+				violation(t, "panic", h.R, "%s", h.R.PanicReport())
+			}
+			_ = n0
+			return h.R.LastResponse, raw
+		}
+		redeliver := func(kind string, b *burner, raw []byte) {
+			m := &sim.TxMeta{Raw: raw, Type: tx.TypeSend, Kind: kind, Sender: b.u.Addr, Payer: b.u.Addr, GasPrice: 1}
+			if !h.R.Deliver(m) {
+				violation(t, "panic", h.R, "%s", h.R.PanicReport())
+			}
+			burnerReplays++
+		}
+		stepBurners := func(block int) {
+			rich := sim.GetUser(0)
+			for i := 1; i < h.W.NUsers; i++ {
+				if h.G.Balance(sim.GetUser(i).Addr, 0).Cmp(h.G.Balance(rich.Addr, 0)) > 0 {
+					rich = sim.GetUser(i)
+				}
+			}
+			if len(burners) < 2 && sim.U(t, "newBurner", 4) == 0 {
+				burners = append(burners, &burner{u: sim.GetUser(h.W.NUsers + 20 + len(burners))})
+			}
+			price := h.N.App.CurrentState().Commission().GetCommissions()
+			for _, b := range burners {
+				switch b.stage {
+				case 0: // fund
+					if r, _ := deliver("burner-fund", rich, b.u.Addr, sim.Bip(int64(20+sim.U(t, "burnFund", 100)))); r.Code == 0 {
+						b.stage = 1
+					}
+				case 1: // an ordinary transaction
+					if r, raw := deliver("burner-send", b.u, rich.Addr, sim.Bip(1)); r.Code == 0 {
+						b.raws = append(b.raws, raw)
+						b.stage = 2
+					}
+				case 2: // drain: everything but the fee
+					if !price.Coin.IsBaseCoin() {
+						b.stage = 9
+						break
+					}
+					bal := h.G.Balance(b.u.Addr, 0)
+					v := new(big.Int).Sub(bal, price.Send)
+					if v.Sign() <= 0 {
+						b.stage = 9
+						break
+					}
+					if r, raw := deliver("burner-drain", b.u, rich.Addr, v); r.Code == 0 {
+						b.raws = append(b.raws, raw)
+						if h.G.Balance(b.u.Addr, 0).Sign() == 0 {
+							drained++
+						}
+						b.stage, b.waitTo = 3, block+1+sim.U(t, "burnWait", 3)
+					}
+				case 3: // (after a commit) fund again
+					if block >= b.waitTo {
+						if r, _ := deliver("burner-refund", rich, b.u.Addr, sim.Bip(int64(20+sim.U(t, "burnRefund", 100)))); r.Code == 0 {
+							b.stage = 4
+							if sim.U(t, "burnSameBlock", 2) == 0 {
+								b.waitTo = block + 1
+							} else {
+								b.waitTo = block
+							}
+						}
+					}
+				case 4: // the old bytes again
+					if block >= b.waitTo {
+						for _, raw := range b.raws {
+							redeliver("burner-replay", b, raw)
+						}
+						b.stage = 5
+					}
 				}
 			}
 		}
@@ -83,10 +188,30 @@ func TestC04(t *testing.T) {
 				h.N.Restart()
 				h.R.Steps = append(h.R.Steps, "RESTART")
 			}
-			if !h.R.Block(t) {
+			if !h.R.Begin(t) {
+				violation(t, "panic", h.R, "%s", h.R.PanicReport())
+			}
+			if h.R.Halted {
+				break
+			}
+			ntx := rapid.IntRange(0, 8).Draw(t, "nTxs")
+			at := sim.U(t, "burnAt", ntx+1)
+			for j := 0; j <= ntx; j++ {
+				if j == at {
+					stepBurners(i)
+				}
+				if j < ntx {
+					if !h.R.Deliver(h.G.Next(t)) {
+						violation(t, "panic", h.R, "%s", h.R.PanicReport())
+					}
+				}
+			}
+			if !h.R.Finish() {
 				violation(t, "panic", h.R, "%s", h.R.PanicReport())
 			}
 		}
+		sim.S.LabelN("C04/burner-accounts-drained-to-zero", drained)
+		sim.S.LabelN("C04/burner-replays-after-refund", burnerReplays)
 		sim.S.LabelN("C04/replays-of-accepted", replays)
 		sim.S.LabelN("C04/out-of-order-nonces", outOfOrder)
 		sim.S.LabelN("C04/accepted", len(accepted))
